@@ -312,6 +312,7 @@ func runC16(c *Ctx) {
 	}
 	checkE2eProvenance(c)
 	checkHopCounts(c)
+	checkNormalizeAlwaysRuns(c)
 	R.Floor("R16.3:reachable-stores", nreach, 1)
 	R.Check(nreach == 1, "R16.3", "module#reachable-store-census", 0, "", "exactly one site sets Reachable", fmt.Sprintf("%d sites set Reachable; the reviewed set has one", nreach))
 }
@@ -730,4 +731,36 @@ func checkHopCounts(c *Ctx) {
 func stores(in ssa.Instruction, call *ssa.Call) bool {
 	st, ok := in.(*ssa.Store)
 	return ok && st.Val == ssa.Value(call)
+}
+
+// checkNormalizeAlwaysRuns is R16.8: the derived fields (identifiers, reachability, hop-count and end-to-end statistics) exist only
+// after Normalize(); every success path of RunTraceroute (helpers of the package opened) passes through it on the returned document –
+// whatever the request's mix of runs and end-to-end probes.
+func checkNormalizeAlwaysRuns(c *Ctx) {
+	R := c.R
+	f := c.P.Func("(traceroute.Traceroute).RunTraceroute")
+	if f == nil {
+		R.Fail("R16.8", "traceroute.RunTraceroute#anchor", 0, "", "anchor (traceroute.Traceroute).RunTraceroute no longer resolves")
+		return
+	}
+	fn := core.FuncName(f)
+	n := 0
+	for _, ip := range InlinedPaths(c.P, f, inlineOpts{pkg: core.FuncPkg(f), stop: hasLoop}) {
+		if len(ip.Results) != 2 || !ip.Results[1].IsConst("nil") || ip.Results[0].IsConst("nil") {
+			continue
+		}
+		n++
+		norm := false
+		for _, ev := range ip.Events {
+			if ev.Kind == "call" && strings.HasSuffix(ev.Callee, ".Normalize") && strings.Contains(ev.Callee, "result.Results") {
+				norm = true
+			}
+		}
+		if norm {
+			R.OK("R16.8", fn+"#normalize-on-success", ip.Ret.Pos(), fn, "the returned document was normalised on this path")
+		} else {
+			R.FailPath("R16.8", fn+"#normalize-on-success", ip.Ret.Pos(), fn, "a success path of RunTraceroute returns the document without calling Normalize(): packets sent / received / loss, RTT statistics, reachability and the run identifiers stay at their zero values although samples are present", ip.Desc)
+		}
+	}
+	R.Floor("R16.8:success-paths", n, 1)
 }
